@@ -12,6 +12,9 @@ def run(ctx):
     if not q:
         ctx.model_check("MC_Ops", "selftest_second_read", constants=dict(O.BASE, Perturbs=("<-", "PertId"), MaxTicks=2, MaxLen=1, PinSecondRead=True),
                         invariants=O.INV_C07, expect=["Soundness", "Completeness"])
+        ctx.model_check("MC_Ops", "selftest_v1_err_before_community", constants=dict(O.BASE, Perturbs=("<-", "PertId"), MaxTicks=0, MaxLen=1, PinV1ErrBeforeCommunity=True,
+                                                                                     IdErrStatuses="{0, 2, 5}"),
+                        invariants=O.INV_C07, expect=["CommunityVersionRefused"])
         ctx.model_check("MC_Ops", "selftest_err_before_id", constants=dict(O.BASE, Perturbs=("<-", "PertId"), MaxTicks=1, MaxLen=1, PinErrBeforeId=True,
                                                                            IdErrStatuses="{0, 2, 5}"),
                         invariants=O.INV_C07, expect=["Rejects", "WalkEndSound"])
@@ -23,15 +26,17 @@ def run(ctx):
         for proto in O.PROTOS:
             if op == "bulkget" and proto == "v1":
                 continue
-            for pert in ["none", "id_plus", "id_minus", "id_arb", "id_p32", "id_m32", "id_neg", "id_p64", "wrong_comm", "wrong_ver"]:
+            for pert in ["none", "id_plus", "id_minus", "id_arb", "id_p32", "id_m32", "id_neg", "id_p64", "id_maxint", "id_zero", "id_minus1", "id_minint", "wrong_comm", "wrong_ver"]:
                 if pert in ("wrong_comm", "wrong_ver") and proto.startswith("v3"):
                     continue
                 for pat in (patterns if not q else rnd.sample(patterns, 5)):
                     oids = [[1, 1]] if op in O.SINGLE else [[1, 1], [1, 2]]
                     sc = dict(op=op, oids=oids, db=db, proto=proto, perturb=pert, ticks=pat, nr=0, mr=0,
                               t0=rnd.choice([1000, 2 ** 31 - 5, 1700000000, 2 ** 31, 2 ** 31 + 9, 2 ** 32 + 3]))
+                    if pert in ("wrong_comm", "wrong_ver") and rnd.random() < 0.5:
+                        sc["es"], sc["ei"] = rnd.choice([2, 2, 5, 17]), rnd.choice([0, 1])
                     if pert.startswith("id_") and rnd.random() < 0.5:
-                        sc["es"], sc["ei"] = rnd.choice([2, 2, 5, 1, 17]), rnd.choice([0, 1])      # a foreign error response is still a foreign response
+                        sc["es"], sc["ei"] = rnd.choice([2, 2, 5, 1, 17, 19, 42, 255, -1]), rnd.choice([0, 1])      # a foreign error response is still a foreign response
                     if pert == "wrong_comm":
                         sc["wrong_comm"] = rnd.choice(["private", "publi", "", "PUBLIC", "public ", "ublic", "p"])
                     if op == "bulkget":
@@ -64,7 +69,7 @@ def run(ctx):
                         continue            # equal ids: nothing to swap
                     S.append(dict(op=opA, oids=[[1, 1]] if opA != "multiget" else [[1, 1], [1, 2]], opB=opB, oidsB=[[2, 1]] if opB != "multiget" else [[2, 1], [1, 2]],
                                   db=db, proto=proto, perturb=pert, dt=dt, nr=0, mr=0, t0=rnd.choice([1000, 2 ** 31 - 1])))
-    ctx.rule = ("every operation x v1/v2c/v3 levels x reply kind {echo, id+1, id-1, arbitrary id, id+-2^32, id+2^64, -id, other community (incl. prefixes / case variants), "
+    ctx.rule = ("every operation x v1/v2c/v3 levels x reply kind {echo, id+1, id-1, arbitrary id, id+-2^32, id+2^64, -id, 2^31-1, 0, -1, -2^31, other community (incl. prefixes / case variants), "
                 "other version} x clock patterns (increment per read in {0,1}^k, k<=3, and large jumps; start values incl. 2^31-5) applied reactively to "
                 "however many reads the code performs; the v3 discovery exchange with matching / mismatching msgID; every request inside walks "
                 "under a ticking clock; non-trivial = accepted trace of a distinct scenario")
@@ -79,6 +84,19 @@ def run(ctx):
             for pat in ([1], [0], [3]):
                 roots = [[1]] if api != "multiwalk" else [[1], [2]]
                 W.append(dict(db=[[1, 1, 1], [1, 1, 2], [1, 2, 1], [2, 1, 1], [3, 1, 1]], roots=roots, bulk=bulk, api=api, proto=proto, ticks=pat))
+            # an error response of another community / version in the middle of the walk
+            if not proto.startswith("v3"):
+                for es in (2, 5):
+                    for foreign in ("comm", "ver"):
+                        roots = [[1]] if api != "multiwalk" else [[1], [2]]
+                        W.append(dict(db=[[1, 1, 1], [1, 1, 2], [1, 2, 1], [2, 1, 1], [3, 1, 1]], roots=roots, bulk=1 if bulk else 0, api=api, proto=proto, ticks=[1],
+                                      err=dict(at=rnd.choice([1, 2]), es=es, ei=1, foreign=foreign)))
+            # a plain response with a foreign request-id in the middle of the walk, strict and lenient (lenient forgives non-increasing OIDs only)
+            for errors in (("strict", "warn") if api in ("walk", "multiwalk") else ("strict",)):
+                for at in (1, 2):
+                    roots = [[1]] if api != "multiwalk" else [[1], [2]]
+                    W.append(dict(db=[[1, 1, 1], [1, 1, 2], [1, 2, 1], [2, 1, 1], [3, 1, 1]], roots=roots, bulk=1 if bulk else 0, api=api, proto=proto, ticks=[1], errors=errors,
+                                  idonly=dict(at=at, delta=rnd.choice([1, -1, 1000]))))
             # an error response with a foreign request-id in the middle of the walk (noSuchName would pass for the end of the subtree)
             for es in (2, 5):
                 for at in (1, 2):
